@@ -19,6 +19,7 @@ func runC15(p *core.Prog, r *core.Report) {
 	c15Create(c)
 	c15Verify(c)
 	c15Reconstruct(c)
+	aliasedInPlaceUpdates(c, "RA.1", "crypto/vss", "common")
 }
 
 // onlyUnder: every occurrence of a term matching elem inside t is the first argument of a
